@@ -129,9 +129,11 @@ def _dep(vc, val, I, lam, idx, axis, shape):
 
 def _cfgs(tier):
     out = []
-    shapes = [((), 0), ((3,), 0), ((2, 3), 1), ((3, 2), 0)] if tier == "quick" else [((), 0), ((2,), 0), ((4,), 0), ((2, 3), 1), ((2, 3), -1), ((3, 2), 0), ((2, 2, 3), 2), ((3, 2, 2), 0)]
+    shapes = [((), 0), ((3,), 0), ((2, 3), 1), ((3, 2), 0), ((3, 2, 2), 0), ((2, 3, 2), 1)] if tier == "quick" else [((), 0), ((2,), 0), ((4,), 0), ((2, 3), 1), ((2, 3), -1), ((3, 2), 0), ((2, 2, 3), 2), ((3, 2, 2), 0)]
     for (shape, axis), prefix, units in itertools.product(shapes, (None, "milli", "micro", "nano"), (False, True)):
         if tier == "quick" and len(shape) > 1 and prefix in ("milli", "nano"):
+            continue
+        if tier == "quick" and len(shape) > 2 and prefix is not None:
             continue
         if units and len(shape) > 1:
             continue  # np.apply_along_axis strips units from Quantity inputs (documented NumPy behaviour); plain arrays only
